@@ -101,7 +101,14 @@ impl<'a> UserTraitGenerator<'a> {
             if matches!(
                 *arg_type.entrails(),
                 TypeEntrails::Clipped(MetaSymbolKind::NonTerminal(_))
-            ) {
+            ) || (arg_inst.sem() == SymbolAttribute::Clipped
+                && matches!(
+                    *arg_type.entrails(),
+                    TypeEntrails::UserDefinedType(MetaSymbolKind::NonTerminal(_), _)
+                ))
+            {
+                // A clipped non-terminal (also one with a user defined type) still lies on the
+                // AST stack and has to be removed from it
                 // let arg_name = symbol_table.name(arg_inst.my_id());
                 // code.push(format!("// Ignore clipped member '{}'", arg_name));
                 code.push("self.pop(context);".to_string());
